@@ -5,14 +5,6 @@ import KotoVerif.Lemmas.C09Step
 
 namespace KotoVerif.Lexer
 
-/-- the prefix of `src` that is exactly `n` bytes long — `none` when `n` is not a character
-boundary of `src` (executable specification function) -/
-def prefixAt (n : Nat) : List Ch → Option (List Ch)
-  | [] => if n = 0 then some [] else none
-  | c :: cs =>
-    if n = 0 then some []
-    else if c.len ≤ n then (prefixAt (n - c.len) cs).map (c :: ·) else none
-
 theorem prefixAt_append (pre post : List Ch) : prefixAt (byteLen pre) (pre ++ post) = some pre := by
   induction pre with
   | nil => cases post <;> simp [prefixAt]
@@ -36,10 +28,7 @@ theorem inv_init (lines : Bool) (src : List Ch) : Inv lines src {} :=
 
 /-- one step of the lexer, for a non-error token -/
 theorem stepD_inv (lines : Bool) (src : List Ch) (s s' : St) (d : Decision) (ht : TableOk src)
-    (hinv : Inv lines src s) (hstep : stepD src s = some (d, s')) (hne : d.tok ≠ .error)
-    -- when the token comes from consume_format_options and we track lines: it contains no line break
-    (hgood : lines = true → d.fromFormat = true →
-      ∀ a b, prefixAt s.cur src = some a → prefixAt s'.cur src = some b → nlCount b = nlCount a) :
+    (hinv : Inv lines src s) (hstep : stepD src s = some (d, s')) (hne : d.tok ≠ .error) :
     Inv lines src s' ∧ s'.prev = s.cur ∧ s.cur ≤ s'.cur ∧ s'.span.start = s.span.stop := by
   obtain ⟨pre, post, hsrc, hcur, hline, hmo, hnb⟩ := hinv
   unfold stepD at hstep
@@ -58,7 +47,7 @@ theorem stepD_inv (lines : Bool) (src : List Ch) (s s' : St) (d : Decision) (ht 
     have hok := decideTok_ok (resetIndent s).span.stop (resetIndent s).prevTok (resetIndent s).modes c rest
       htab (by rw [hr2]; exact hmo) (by rw [hr2]; exact hnb) (by rw [hd]; exact hne)
     rw [hd] at hok
-    obtain ⟨n, q, k, hm, hk1, hk2, hl1, hl2, hmo', hnb'⟩ := hok
+    obtain ⟨n, q, k, hm, hk1, hk2, hl1, hmo', hnb'⟩ := hok
     rw [hd] at hs'
     have hs'cur : s'.cur = s.cur + n ∧ s'.prev = s.cur ∧ s'.span = ⟨s.span.stop, q⟩ ∧ s'.modes = d.modes := by
       rw [← hs']
@@ -72,19 +61,8 @@ theorem stepD_inv (lines : Bool) (src : List Ch) (s s' : St) (d : Decision) (ht 
     · intro hl
       rw [e3]
       simp only [nlCount_append]
-      rw [hr1] at hl1 hl2
-      cases hf : d.fromFormat with
-      | false => rw [hl1 hf, hline hl]
-      | true =>
-        have ha : prefixAt s.cur src = some pre := by
-          rw [← hcur]; conv => lhs; rw [hsrc]
-          exact prefixAt_append pre _
-        have hb : prefixAt s'.cur src = some (pre ++ (c :: rest).take k) := by
-          rw [← hbytes]; conv => lhs; rw [hsplit]
-          exact prefixAt_append _ _
-        have := hgood hl hf _ _ ha hb
-        simp only [nlCount_append] at this
-        rw [hl2 hf, hline hl]; omega
+      rw [hr1] at hl1
+      rw [hl1, hline hl]
     · rw [e4]; exact hmo'
     · rw [e4]; exact hnb'
 
